@@ -215,8 +215,9 @@ namespace avel {
         static_assert(N < mask64x8u::width, "Specified index does not exist");
         typename std::enable_if<N < mask64x8u::width, int>::type dummy_variable = 0;
 
+        auto bit = std::uint64_t(1) << N;
         auto mask = std::uint64_t(b) << N;
-        return mask64x8u{__mmask64(decay(m) & ~mask) | mask};
+        return mask64x8u{__mmask64((decay(m) & ~bit) | mask)};
     }
 
 
